@@ -15,6 +15,7 @@ RULE = (
     "through Chunk lists, fmtstr(**kw), fmtstr(*names), nested fmtfuncs and str+FmtStr mixing. Oracle: independent "
     "SGR interpreter (cells equal, final graphic state default, nothing but SGR). Non-trivial: >=2 non-empty runs "
     "with different formatting, or a run with >=1 style and a colour."
+    ' Values are also built by derivation from observed parents (attribute removal, switching a style off, slicing, concatenation, copy, repetition after str/len/width/hash/repr/divides/splice/... filled every cache) and in large sizes (65-130 runs, texts of hundreds of characters).'
 )
 ASSUMPTIONS = [
     "ANSI terminal = ECMA-48/xterm SGR semantics for parameters 0,1,2,3,4,5,7,30-37,39,40-47,49 (vf/sgr.py)",
